@@ -73,6 +73,13 @@ claim("C20", "proof",
       "DESIGN.md §3 C20, §2.4 G5/G9")
 
 
+claim("C13", "other",
+      "path-sensitive typestate (scope-depth) analysis over MIR with boolean-flag tracking and bottom-up summaries; interprocedural privacy fix-point for entry-depth writers; per-action effects composed along the grammar; type-level immutability walk; ambient-authority reachability",
+      "Static effect analysis: for each of the ~100 bodies that can touch a caller-supplied Scope the analysis explores every MIR path (flags assigned from constants are tracked, so flag-guarded push/pop pairs match) and computes (net depth change, minimum depth, writes at entry depth); all evaluator closures and evaluation entry points must be neutral, loops with non-zero net effect are reported. Writers at entry depth (the boxed-context evaluator) are admitted only when an interprocedural fix-point shows every caller passes a scope it constructed or holds a pending push on (dyn calls resolved through builder return sets, falling back to the signature set). The effects of the parser's reduce actions are composed along feel.y: every non-terminal has a unique net effect, every start alternative nets 0 with names added only at depth >= 1. FeelContext/Value/number/temporal types contain no UnsafeCell (deep walk through Box/Vec/Arc/BTreeMap), so `&FeelContext` inputs cannot be altered; no clock/env/fs/net/rand call is reachable from evaluation except FeelDate::today_local (the property's own exception); evaluator closures capture no interior-mutable state except the read-only registries.",
+      "Trusts rustc's MIR, the call graph (dyn calls by signature / builder pools), and that Scope's state is only reachable through its methods (its `contexts` field is private; the methods are classified from their own MIR). Assume/guarantee: a dyn evaluator call is neutral because every closure that can flow there is itself checked. Error (Err) returns of build-time functions may leave a context pushed; reported as notes, not claimed.",
+      "DESIGN.md §3 C13, §2.4 G3/G4")
+
+
 def main():
     checks = []
     for pid in sorted(CLAIMED):
